@@ -5,6 +5,7 @@ import (
 	"os"
 	"strings"
 
+	"github.com/massnetorg/mass-core/massutil"
 	"github.com/massnetorg/mass-core/wire"
 	mwdb "massnet.org/mass-wallet/masswallet/db"
 	"verifharness/internal/dbwrap"
@@ -100,6 +101,7 @@ type CrashResult struct {
 	Final   string
 	Lines   []string
 	Viol    *Violation
+	Traces  []Violation // findings after which the run went on (the harness healed the state)
 }
 
 func (r *Run) storedTip() (uint64, wire.Hash, error) {
@@ -173,7 +175,7 @@ func RunCrash(s *Script, ks []int, moveOn int, dropLost bool, twin *Twin) (*Cras
 	}
 	crashed := !ok
 	skip := make([]bool, len(s.Ops))
-	partialFrom := int64(-1) // stored height before the first of several interrupted restarts
+	mark := -1 // position in the record where the current outage began
 	ctxOverride := ""
 	if !ok {
 		ctxOverride = "open"
@@ -226,16 +228,14 @@ func RunCrash(s *Script, ks []int, moveOn int, dropLost bool, twin *Twin) (*Cras
 		}
 		// the node moves on while the wallet is down (only chain operations that precede the next
 		// wallet-changing API call of the script, so that the script's order of API calls is kept)
-		mark := len(r.Lines)
+		if mark < 0 {
+			mark = len(r.Lines) // (kept across restarts that crash again before the record is resynchronised)
+		}
 		j := i
 		if inflight {
 			j = i + 1
 		}
-		m := moveOn
-		if at.Context == "restart" || at.Context == "after-restart" {
-			m = 0 // (keeps the record of an interrupted catch-up in order)
-		}
-		for ; j < len(s.Ops) && m > 0; j++ {
+		for m := moveOn; j < len(s.Ops) && m > 0; j++ {
 			k := s.Ops[j].Kind
 			if k.Mutating() {
 				break
@@ -260,17 +260,20 @@ func RunCrash(s *Script, ks []int, moveOn int, dropLost bool, twin *Twin) (*Cras
 			// crashed again while opening / catching up; an operation in flight stays in flight
 			res.Crashes = append(res.Crashes, at)
 			crashed, ctxOverride = true, "restart"
-			if partialFrom < 0 && r.tipKnown {
-				partialFrom = int64(syncedBefore)
-			}
 			continue
 		}
 		crashed = false
-		// lines that belong BEFORE the node moved on: the announcement in flight, if the stored
-		// tip shows that it was processed before the crash ...
+		// lines that belong BEFORE the node moved on: an announcement whose commit happened in the
+		// crashed incarnation but whose acceptance the harness could not record any more (the
+		// announcement in flight, the delivery of the tip after a stale restart): the stored tip
+		// found at reopening says so ...
 		var pre []string
-		if inflight && s.Ops[i].Kind == OpAnnounce && r.TipBefore == *s.Ops[i].Blk.Hash() {
-			pre = append(pre, fmt.Sprintf("P %d ok", s.Ops[i].BlkID))
+		var resync *massutil.Block
+		if r.TipBefore != r.RecTip {
+			if blk := s.byHash()[r.TipBefore]; blk != nil {
+				pre = append(pre, fmt.Sprintf("P %d ok", s.Gen.CfBlockID(blk)))
+				resync = blk
+			}
 		}
 		// ... and the operation in flight, if its effect is there (then it is not re-issued).
 		// Everything that touches the wallet is guarded: the next crash point may be reached by
@@ -298,9 +301,6 @@ func RunCrash(s *Script, ks []int, moveOn int, dropLost bool, twin *Twin) (*Cras
 		}) {
 			res.Crashes = append(res.Crashes, at)
 			crashed, ctxOverride = true, "after-restart"
-			if partialFrom < 0 {
-				partialFrom = int64(syncedBefore)
-			}
 			continue
 		}
 		if inflight && advance {
@@ -310,16 +310,40 @@ func RunCrash(s *Script, ks []int, moveOn int, dropLost bool, twin *Twin) (*Cras
 				r.Active[op.W] = true
 			case OpNewAddr:
 				r.Issued[op.W] = append(r.Issued[op.W], op.Addr)
-				pre = append(pre, fmt.Sprintf("A %d %d", op.Sh, op.W))
+				// (the address was committed before anything the restart did)
+				pre = append([]string{fmt.Sprintf("A %d %d", op.Sh, op.W)}, pre...)
 			case OpRemove:
 				r.Active[op.W] = false
 			}
 			i++
 		}
 		inflight = false
-		if len(pre) > 0 {
-			r.Lines = append(r.Lines[:mark:mark], append(pre, r.Lines[mark:]...)...)
+		if resync != nil {
+			r.RecTip = *resync.Hash()
+			r.markSeen(resync)
 		}
+		if len(pre) > 0 {
+			// (a block connected by an interrupted catch-up was attached after the outage began:
+			//  its line goes after its own "N attach")
+			for _, l := range pre {
+				at := mark
+				var id int
+				if n, _ := fmt.Sscanf(l, "P %d ok", &id); n == 1 {
+					want := fmt.Sprintf("N attach %d", id)
+					for x := len(r.Lines) - 1; x >= at; x-- {
+						if r.Lines[x] == want {
+							at = x + 1
+							break
+						}
+					}
+				}
+				r.Lines = append(r.Lines[:at:at], append([]string{l}, r.Lines[at:]...)...)
+				if at == mark {
+					mark++
+				}
+			}
+		}
+		mark = -1
 		if dropLost {
 			for j := i; j < len(s.Ops); j++ {
 				if s.Ops[j].Kind == OpAnnounce && r.Attached[s.Ops[j].BlkID] {
@@ -330,10 +354,6 @@ func RunCrash(s *Script, ks []int, moveOn int, dropLost bool, twin *Twin) (*Cras
 		// catch-up performed by Start (possibly over several attempts): the node's blocks above
 		// the stored tip, in order
 		from := syncedBefore
-		if partialFrom >= 0 {
-			from = uint64(partialFrom)
-			partialFrom = -1
-		}
 		best := r.W.H.VerifBest()
 		for h := from + 1; h <= r.N.Height(); h++ {
 			v := "ok"
@@ -341,6 +361,9 @@ func RunCrash(s *Script, ks []int, moveOn int, dropLost bool, twin *Twin) (*Cras
 				v = "err"
 			}
 			r.emit("P %d %s", s.Gen.CfBlockID(r.N.Best[h]), v)
+			if v == "ok" {
+				r.RecTip = *r.N.Best[h].Hash()
+			}
 			at.CaughtUp++
 		}
 		r.Stale = best.Hash != *r.N.Tip().Hash()
@@ -349,6 +372,31 @@ func RunCrash(s *Script, ks []int, moveOn int, dropLost bool, twin *Twin) (*Cras
 			r.markSeen(blk)
 		}
 		res.Crashes = append(res.Crashes, at)
+		// Start only catches up by HEIGHT (syncedTo+1 .. node height). If the node replaced the
+		// wallet's tip by a block of the same (or a lower) height while the wallet was down or
+		// before the lost announcement was processed, the restarted wallet stays on the abandoned
+		// block — and keeps reporting its coins, and a resumed restore answers "importing
+		// continuable" for ever — until the NEXT block is connected. Recorded as a finding; the
+		// harness then delivers the tip's announcement (what the next block would do) and goes on.
+		if r.Stale && best.Height >= r.N.Height() {
+			res.Traces = append(res.Traces, Violation{Key: "restart-stays-on-abandoned-tip",
+				What: fmt.Sprintf("crash right after commit %d (%s); the node's best block at height %d is now block %d, the wallet's stored tip is the abandoned block %d at height %d: Start catches up by height only (%d..%d = nothing), the wallet stays on the abandoned block until another block is connected",
+					at.K, at.Context, r.N.Height(), s.Gen.CfBlockID(r.N.Tip()), blockIDByHash(s, best.Hash), best.Height, best.Height+1, r.N.Height())})
+			healed := false
+			if !r.guard(func() {
+				r.W.Notify(r.N.Tip())
+				healed = r.W.H.VerifBest().Hash == *r.N.Tip().Hash()
+			}) {
+				crashed, ctxOverride = true, "after-restart"
+				continue
+			}
+			if healed {
+				r.accepted(r.N.Tip())
+				r.Stale = false
+			} else {
+				r.emit("P %d err", s.Gen.CfBlockID(r.N.Tip()))
+			}
+		}
 		if !r.guard(func() { r.Query() }) {
 			crashed, ctxOverride = true, "after-restart"
 			continue
@@ -413,4 +461,11 @@ func firstDiff(a, b string) (field, la, lb string) {
 		}
 	}
 	return "", "", ""
+}
+
+func blockIDByHash(s *Script, h wire.Hash) int {
+	if b := s.byHash()[h]; b != nil {
+		return s.Gen.CfBlockID(b)
+	}
+	return -1
 }
